@@ -39,9 +39,11 @@ Base == {
   (* fields of function type: F returns "x"; N and G are nil functions *)
   [id |-> "struct:funcs", kind |-> "fstruct", fields |-> << <<"F", SB("x")>> >>, structs |-> {}],
   (* map[interface{}]string: any key may be asked for, only "a" is there; a slice or hash can never be a key *)
-  Mapc("map:vs:a=b", "any", << <<SB("a"), SB("b")>> >>) }
+  Mapc("map:vs:a=b", "any", << <<SB("a"), SB("b")>> >>),
+  (* named container types that also have a String method (type tagList []string, type strMap map[string]string): containers still *)
+  Seqc("tags:go,twig,templates", <<SB("go"), SB("twig"), SB("templates")>>), Mapc("smap:k=v,j=w", "string", << <<SB("k"), SB("v")>>, <<SB("j"), SB("w")>> >>) }
 Ptrs == {[d EXCEPT !.id = "ptr:" \o d.id] : d \in {b \in Base : b.id \in {"slice:int:4,5,6", "slice:string:a,b", "map:ss:a=x,b=y",
-                                                                              "map:is:1=a,2=b", "map:ns:1=a,3=c", "struct:person", "array3", "slice:int:", "struct:emb", "struct:embnil", "struct:funcs", "map:vs:a=b"}}}
+                                                                              "map:is:1=a,2=b", "map:ns:1=a,3=c", "struct:person", "array3", "slice:int:", "struct:emb", "struct:embnil", "struct:funcs", "map:vs:a=b", "tags:go,twig,templates", "smap:k=v,j=w"}}}
 Nils == {[id |-> x, kind |-> "nil"] : x \in {"nil", "nilptr:slice", "nilptr:map", "nilptr:person", "slice:nilint", "map:nilss", "nilptr:int"}}
 Scalars == {[id |-> x, kind |-> "scalar"] : x \in {"num:int:192", "num:float64:96", "str:abc", "bool:t", "stringer:abc", "func", "chan"}}
 Containers == Base \cup Ptrs \cup Nils \cup Scalars
@@ -132,6 +134,8 @@ IterWhy(d, ev) ==
        ELSE IF \E j \in 1..Len(d.els) : ~LoopOK(ev.items[j].loop, j, Len(d.els)) THEN "loop-metadata"
        ELSE IF ~ev.len_ok \/ ev.len # Len(d.els) \/ ~ev.iterable \/ ~ev.isarray \/ ev.ismap THEN "len-or-tests"
        ELSE IF ~ev.contains_all \/ ev.contains_absent \/ ev.contains_err THEN "contains"
+       ELSE IF ev.twig = "panic" THEN "twig-length-or-in-panics"
+       ELSE IF ev.twig = "ran" /\ (ev.twiglen # Len(d.els) \/ ~ev.twigin) THEN "twig-length-or-in-differs-from-traversal"
        ELSE ""
   ELSE IF d.kind = "map" THEN
        IF ~ev.iter_ok \/ ev.iter_n # Len(d.ents) \/ Len(ev.items) # Len(d.ents) THEN "map-count"
@@ -140,6 +144,8 @@ IterWhy(d, ev) ==
        ELSE IF \E j \in 1..Len(d.ents) : ~LoopOK(ev.items[j].loop, j, Len(d.ents)) THEN "loop-metadata"
        ELSE IF ~ev.len_ok \/ ev.len # Len(d.ents) \/ ~ev.iterable \/ ev.isarray \/ ~ev.ismap THEN "len-or-tests"
        ELSE IF ~ev.contains_all \/ ev.contains_absent \/ ev.contains_err THEN "contains"
+       ELSE IF ev.twig = "panic" THEN "twig-length-or-in-panics"
+       ELSE IF ev.twig = "ran" /\ (ev.twiglen # Len(d.ents) \/ ~ev.twigin) THEN "twig-length-or-in-differs-from-traversal"
        ELSE ""
   ELSE IF d.kind = "nil" THEN
        IF ev.iter_ok /\ (ev.iter_n # 0 \/ ev.items # <<>>) THEN "nil-visits"
